@@ -1,5 +1,6 @@
 import SplinkVerif.Drv.Util
 import SplinkVerif.Model.Descriptive
+import SplinkVerif.Model.DescSql
 namespace SplinkVerif.Drv
 open Lean SplinkVerif SplinkVerif.Descriptive
 
@@ -47,7 +48,18 @@ def handleDescriptive (j : Json) : Except String Json := do
         ("bins", Json.arr (bins.map fun b => Json.arr #[jNat b.1, jNat b.2]).toArray)]
   let rows := self.map fun p => (roundUnitsFloat 100.0 p.1, roundUnitsFloat 100000.0 p.2)
   let unl := unlinkables 100000 rows
+  -- the regenerated SQL of the TF table and of the completeness sub-select (Generated/DescSql.lean) under Rel.eval, on the same input
+  let jv : Rel.Val → Json := fun v => match v with
+    | .null => Json.null
+    | .int i => jInt i
+    | .bool b => Json.bool b
+    | .str s => Json.str s
+    | .rat q => Json.arr #[jInt q.num, jNat q.den]
+  let enc := fun (rows : List Rel.Row) => Json.arr (rows.map fun r => Json.arr (r.map jv).toArray).toArray
+  let tfSql := tfcols.map fun i => enc (DescSql.tfTable (colAt i))
+  let complSql := cols.map fun c => enc (DescSql.completenessCol sd c)
   pure <| Json.mkObj [
+    ("tf_sql", Json.arr tfSql.toArray), ("compl_sql", Json.arr complSql.toArray),
     ("tf", Json.arr (tf.map fun t => Json.arr (t.map fun r => Json.arr #[jNat r.value, jNat r.num, jNat r.den]).toArray).toArray),
     ("tfjoin", Json.arr (tfjoin.map fun t => Json.arr (t.map fun r =>
         match r.2 with
